@@ -16,6 +16,9 @@ def cents(x):
 # lines that are signed by design (documented): the NC "refund" helper is +refund / -amount due
 SIGNED_BY_DESIGN = {
     'nc_d-400.refund',      # helper line: + refund / - amount due
+    # NC D-400 lines 12a / 12b / 14 (NC taxable income): plain subtractions on the form; the floor is on line 15
+    # ("Multiply Line 14 by …. If zero or less, enter a zero"), so the form itself expects them to go negative
+    'nc_d-400.12a', 'nc_d-400.12b', 'nc_d-400.14',
     '8995.11',              # "taxable income before the QBI deduction": Form 1040 line 11 minus line 12, with NO floor on
                             # the form (i8995: plain subtraction); the floor is on line 13 ("if zero or less, enter -0-")
 }
